@@ -66,6 +66,9 @@ type Config struct {
 
 func Load(cfg Config) (*Engine, error) {
 	t0 := time.Now()
+	if cfg.RepoDir != "" {
+		RepoPrefix = strings.TrimSuffix(cfg.RepoDir, "/") + "/"
+	}
 	pcfg := &packages.Config{
 		Mode:    packages.LoadAllSyntax,
 		Dir:     cfg.RepoDir,
@@ -572,7 +575,7 @@ func (e *Engine) ExecutedFunctions() []string {
 		if strings.Contains(file, "zz_verif") {
 			continue
 		}
-		file = strings.TrimPrefix(file, "/repo/")
+		file = strings.TrimPrefix(file, RepoPrefix)
 		out = append(out, fmt.Sprintf("%s (%s:%d)", fn.String(), file, pos.Line))
 	}
 	sort.Strings(out)
